@@ -84,7 +84,25 @@ pub fn staged_families(thorough: bool) -> Vec<Family> {
         dd.assert_split = Some((1, 1));
         v.push(dd);
     }
+    // a product with one fusable sum and one more reader that is a wide op (HornerAcc, MulAdd,
+    // Select operand): the fusion's use counts must see every operand position of every op kind
+    v.push(staged(
+        "product-sum-then-wide",
+        vec![stage(&[VK::Mul], 1, &[0], true, false), stage(&[VK::Add, VK::Sub], 1, &[0, 1], false, false), stage(&[VK::Horner, VK::MulAdd, VK::Select], 1, &[0, 1, 2], false, false)],
+        &conn,
+        0,
+        3,
+        &[],
+    ));
     if thorough {
+        v.push(staged(
+            "products-2-sum-then-wide-2",
+            vec![stage(&[VK::Mul], 2, &[0], true, false), stage(&[VK::Add, VK::Sub], 1, &[0, 1], false, false), stage(&[VK::Horner, VK::MulAdd, VK::Select], 2, &[0, 1, 2], false, false)],
+            &conn,
+            0,
+            2,
+            &[],
+        ));
         v.push(staged("sum-of-products-3+3", vec![stage(&[VK::Mul], 3, &[0], true, true), stage(&[VK::Add, VK::Sub], 3, &[0, 1, 2], false, false)], &conn, 1, 3, &[2]));
         v.push(staged("sum-of-products-4+3", vec![stage(&[VK::Mul], 4, &[0], true, false), stage(&[VK::Add], 3, &[1, 2], false, false)], &conn, 0, 2, &[]));
         // de-duplication chains: five ops over three inputs, any aliasing of the inputs, one
